@@ -120,28 +120,28 @@ func init() {
 
 func init() {
 	reg(&propCfg{ID: "C15", QuickRuns: 2500, QuickSecs: 40, ThoroughRuns: 100000, ThoroughSecs: 780, Chunk: 25,
-		RuleNote:   "C15: directories of 0, 1, 2, 3, 7, 50 (thorough also 1000 and 3000) entries with name lengths 1..255 (so entry sizes vary), files and subdirectories, msize 256..64 KiB, both dialects. Five strata by run index: a fixed count enumerated from the largest entry size up to about three entries; random counts per read; a listing abandoned after 1..3 replies and restarted at offset 0; the client's Readdir(0) and Readdir(n); a count smaller than the first entry. Every Rread payload is split into whole records by the independent stat decoder and the concatenated listing is compared with os.ReadDir.",
+		RuleNote:   "C15: directories of 0, 1, 2, 3, 7, 50 (thorough also 1000 and 3000) entries with name lengths 1..255 (so entry sizes vary), files and subdirectories, msize 256..64 KiB, both dialects. Five strata by run index: a fixed count enumerated from the largest entry size up to about three entries; random counts per read; a listing abandoned after 1..3 replies and restarted at offset 0; the client's Readdir(0) and Readdir(n); a count smaller than the first entry. Every Rread payload is split into whole records by the independent stat decoder and the concatenated listing is compared with os.ReadDir. The too-small stratum also lists up to a drawn entry k, offers less than entry k needs at that offset (Rerror expected, not an empty reply) and then reads entry k with exactly its size.",
 		Real:       ufsReal, Stub: ufsStub,
 		ProbeNames: []string{"fixed-count-listing", "restart-at-zero-mid-listing", "client-readdir", "count-too-small"}})
 }
 
 func init() {
 	reg(&propCfg{ID: "C16", QuickRuns: 1500, QuickSecs: 40, ThoroughRuns: 60000, ThoroughSecs: 780, Chunk: 20,
-		RuleNote:   "C16: random trees of 5..40 entries nested up to 3, 8 or 40 levels (names with spaces, non-ASCII bytes, dots, 255-byte names; files, directories, symlinks incl. dangling ones, hard links). Stratum 'raw-walks': 10..40 walks per run from an existing start point by a name list of which a prefix exists (suffix 'missing', prefix 'missing-first', up to 16 elements), to a new fid or in place; number of qids, error iff the first element is missing, qid type/path against os.Lstat, then Tstat of source fid and new fid decide where they point; stat fields (name, permission bits, DMDIR/DMSYMLINK, length, mtime, qid, symlink target) against os.Lstat; one qid path never names two different files. Stratum 'client-paths': FStat of every object through the client (deep paths split into several Twalks).",
+		RuleNote:   "C16: random trees of 5..40 entries nested up to 3, 8 or 40 levels (names with spaces, non-ASCII bytes, dots, 255-byte names; files, directories, symlinks incl. dangling ones, hard links). Stratum 'raw-walks': 10..40 walks per run from an existing start point by a name list of which a prefix exists (suffix 'missing', prefix 'missing-first', up to 16 elements), to a new fid or in place; number of qids, error iff the first element is missing, qid type/path against os.Lstat, then Tstat of source fid and new fid decide where they point; stat fields (name, permission bits, DMDIR/DMSYMLINK, length, mtime, qid, symlink target) against os.Lstat; one qid path never names two different files. Stratum 'client-paths': FStat of every object through the client (deep paths split into several Twalks). followed by 2..4 goroutines sharing that client and resolving drawn paths concurrently, every answer compared with os.Lstat.",
 		Real:       ufsReal, Stub: ufsStub,
 		ProbeNames: []string{"partial-walk", "partial-walk-in-place", "walk-first-missing", "client-walk-split-into-several-twalks"}})
 }
 
 func init() {
 	reg(&propCfg{ID: "C17", QuickRuns: 1500, QuickSecs: 40, ThoroughRuns: 50000, ThoroughSecs: 780, Chunk: 20,
-		RuleNote:   "C17: a random tree (3..25 entries: files, directories, symlinks, hard links) is created twice; 8..30 (thorough ..80) mutations drawn against the current state — create of a file with each open mode +-OTRUNC followed by a write through the new fid, of a directory, symlink (also dangling) and hard link, write to an existing file, remove of files and of empty and non-empty directories, wstat rename to free and occupied names, truncate to 0..beyond size, chmod, mtime — are applied through raw 9P requests to tree A and with the os package to twin B; after every step the trees are compared recursively (names, kinds, permission bits, contents, link targets, link counts), error replies must leave A unchanged (create, remove) and carry the errno of the POSIX failure in 9P2000.u, and Tstat on the fid after create/rename must name the new object. Create over an existing name may either fail or behave like a non-exclusive open. Every 4th run (stratum os-error) lets one os / syscall call of the mutating request fail with a drawn errno (EIO, ENOSPC, EACCES, EMFILE, ENOENT, EINTR, EROFS, ENOMEM) instead of being performed: the reply must carry that errno, a failed create/remove must leave the tree unchanged, and the twin is re-synchronised afterwards.",
+		RuleNote:   "C17: a random tree (3..25 entries: files, directories, symlinks, hard links) is created twice; 8..30 (thorough ..80) mutations drawn against the current state — create of a file with each open mode +-OTRUNC followed by a write through the new fid, of a directory, symlink (also dangling) and hard link, write to an existing file, remove of files and of empty and non-empty directories, wstat rename to free and occupied names, truncate to 0..beyond size, chmod, mtime — are applied through raw 9P requests to tree A and with the os package to twin B; after every step the trees are compared recursively (names, kinds, permission bits, contents, link targets, link counts), error replies must leave A unchanged (create, remove) and carry the errno of the POSIX failure in 9P2000.u, and Tstat on the fid after create/rename must name the new object. Create over an existing name may either fail or behave like a non-exclusive open. Every 4th run (stratum os-error) lets one os / syscall call of the mutating request fail with a drawn errno (EIO, ENOSPC, EACCES, EMFILE, ENOENT, EINTR, EROFS, ENOMEM) instead of being performed: the reply must carry that errno, a failed create/remove must leave the tree unchanged, and the twin is re-synchronised afterwards. With probability 0.4 a Twstat step (rename, truncate, chmod, chown, mtime) is sent on a fid that was first opened with a drawn mode (OREAD/OWRITE/ORDWR/OEXEC).",
 		Real:       ufsReal, Stub: ufsStub,
 		ProbeNames: []string{"create-error", "remove-error", "rename", "truncate", "chmod", "set-mtime", "symlink-create", "hardlink-create"}})
 }
 
 func init() {
 	reg(&propCfg{ID: "C18", QuickRuns: 1500, QuickSecs: 40, ThoroughRuns: 60000, ThoroughSecs: 780, Chunk: 20,
-		RuleNote:   "C18: layout outer/{canary.txt, canarydir/inside.txt, root/...} with a further canary above; 6..20 attacking connections per run, each with an attach name, 0..4 walk elements, a create name and a rename target drawn from a grammar over '..', '.', '', '/', absolute paths, '../' chains, elements containing '/', and mixtures with real names, started at the root or at a random depth, followed by stat, open, read / directory read, write, create, rename and remove through whatever fid resulted. Canaries and everything else outside the root (mode, mtime, content, listing) must be unchanged, no qid returned may be that of an object outside the root (inode comparison), no data read may be a canary's, '..' at the root must yield the root's qid.",
+		RuleNote:   "C18: layout outer/{canary.txt, canarydir/inside.txt, root/...} with a further canary above; 6..20 attacking connections per run, each with an attach name, 0..4 walk elements, a create name and a rename target drawn from a grammar over '..', '.', '', '/', absolute paths, '../' chains, elements containing '/', and mixtures with real names, started at the root or at a random depth, followed by stat, open, read / directory read, write, create, rename and remove through whatever fid resulted. Canaries and everything else outside the root (mode, mtime, content, listing) must be unchanged, no qid returned may be that of an object outside the root (inode comparison), no data read may be a canary's, '..' at the root must yield the root's qid. Hostile creates use every kind (file, directory and, in 9P2000.u, symbolic link, hard link, named pipe, device, socket); after an Rcreate the fid is examined with Tstat and a walk to the canary's name.",
 		Real:       ufsReal, Stub: ufsStub,
 		ProbeNames: []string{"dotdot-walk", "attach-refused"}})
 }
@@ -164,7 +164,7 @@ func init() {
 
 func init() {
 	reg(&propCfg{ID: "C19", Race: true, QuickRuns: 1200, QuickSecs: 50, ThoroughRuns: 60000, ThoroughSecs: 900, Chunk: 30,
-		RuleNote:   "C19 runs in the race build (only go9p and the standard library are instrumented; scheduler and harness are compiled with -race=false and park/release inside RaceDisable regions, transport reads happen-after earlier writes like sockets do). Strata: 'script/pipelined' (C03 workload: 1..3 connections, up to 16 pipelined requests each on its own fid, answers from other goroutines), 'script/flushes' (C07 workload incl. Tversion at session start), 'ufs/shared-client' (2..8 goroutines sharing one client against Ufs, each on its own file, all walking from the shared root fid, reading a shared directory), 'script/connection-churn' (connections opened and dropped once their requests are answered while two others stay busy). Only race reports and crashes are judged.",
+		RuleNote:   "C19 runs in the race build (only go9p and the standard library are instrumented; scheduler and harness are compiled with -race=false and park/release inside RaceDisable regions, transport reads happen-after earlier writes like sockets do). Strata: 'script/pipelined' (C03 workload: 1..3 connections, up to 16 pipelined requests each on its own fid, answers from other goroutines), 'script/flushes' (C07 workload incl. Tversion at session start), 'ufs/shared-client' (2..8 goroutines sharing one client against Ufs, each on its own file, all walking from the shared root fid, reading a shared directory), 'script/connection-churn' (connections opened and dropped once their requests are answered while two others stay busy). Only race reports and crashes are judged. Added strata: 'client/shared-client' (2..8 goroutines sharing the library client against the scripted peer: Read/Write/Stat/Walk/Clunk, pipelined Tag reads, File.ReadAt, replies withheld and released in drawn order, client logging off / fcalls / packets with a goroutine reading the log), 'logger' (2..4 producers and 1..3 filterers on one Logger); the Ufs stratum uses 1..3 connections and includes '..' walks and renames.",
 		Real:       append(append(append([]string{}, srvReal...), "go9p client library", "go9p Ufs on a scratch tree"), "Go race detector"),
 		Stub:       srvStub,
 		ProbeNames: []string{}})
